@@ -34,6 +34,11 @@ SAVE_EXPRS = [
     "6.02214076e23*x", "8.8541878128e-12 + y", "1.380649e-23*x/1.602176634e-19", "0.000123456789*x", "123456789012345678.0 + x",
     "x/96485.33212", "2.99792458e8*y", "1.23456789e-5*x + 9.87654321e16*y", "x*1.0000000001e20",
     "exp(-(x + 80)/6.8)", "0.057*exp(-(x + 80)/6.8)", "asin(x/2) + acos(y/4) + atan(z)", "tan(x)",
+    # a branch that sympy.simplify rewrites with its condition (same value, other derivative in x: Rush-Larsen differs at x == a)
+    "Conditional(Eq(x, a), a, y)*x**(1/3)", "Conditional(Eq(0.5 - x, 0.5), t + x, log(y))**2", "Conditional(Eq(x, 2*a), a*a, x*y)",
+    # a Conditional as operand of a relational (sympy: ITE), conditions that fold to a constant
+    "Conditional(Ge(Conditional(Lt(x, 1), y, a), z), 1/x, y)", "Conditional(Or(Lt(a, 0.1), Ge(Conditional(Lt(x, 1), y, a), z)), x, y)",
+    "Conditional(And(Gt(y, 0), Lt(Conditional(Lt(a, x), x, a), x)), 1, 2)", "Conditional(Lt(Conditional(Gt(x, y), y, x), x + 1), x, y)",
 ]
 DECL = ('parameters("A", a=ScalarParam(0.5, unit="mV", description="par a"), big=1e25, small=1e-25, q=exp(1), r=1/4, neg=-0.5, avo=6.02214076e23, eps0=8.8541878128e-12)\n'
         'parameters("B", b=ScalarParam(2.0, unit="per_ms"), cap=ScalarParam(1.0, unit="microF_per_cm2", description="CellML style unit"))\nstates("A", x=ScalarParam(1.0, unit="mM", description="state x"))\nstates("B", y=ScalarParam(2.0, unit="microA_per_microF"), z=1e-3)\n'
